@@ -115,7 +115,8 @@ PROPERTIES = {
             "AsyncScopedValue.__init__", "AsyncScopedValue.get", "AsyncScopedValue.set", "AsyncScopedValue.override",
             "AsyncScopedValue.__call__", "_AsyncScopedValueOverrideContext.__init__", "_AsyncScopedValueOverrideContext.resume",
             "_AsyncScopedValueOverrideContext.pause", "_AsyncPropertyOverrideContext.__init__",
-            "_AsyncPropertyOverrideContext.resume", "_AsyncPropertyOverrideContext.pause"]] + [S + "_handle_async_task"],
+            "_AsyncPropertyOverrideContext.resume", "_AsyncPropertyOverrideContext.pause"]] + [S + "_handle_async_task"] +
+                     [X + n for n in ["enter_context", "leave_context", "AsyncContext.__enter__", "AsyncContext.__exit__"]],
         "assumptions": [A_ENV_GEN],
         "lemmas": ["lifo-save-restore"],
     },
@@ -178,7 +179,8 @@ PROPERTIES = {
         "not_proved": ["equality with the built-in counterparts (bounded stand-in only)", "aretry attempt count formula (bounded)"],
     },
     "C16": {
-        "functions": [S + "reset"],
+        # AsyncTask._compute looks the scheduler up on the computing thread (scheduler.get_scheduler() at call time); __init__ stores none
+        "functions": [S + "reset", T + "_compute", T + "__init__"],
         "structural": ["ownership-inventory", "thread-local-roots", "dedup-key-thread"],
         "assumptions": ["CPython's GIL makes single dict/list operations atomic; threading.local / ContextVar behave as documented; user objects are not shared between threads",
                         "isolation under all OS-thread interleavings follows from the ownership discipline by the separation argument (prose); the interleavings themselves are only smoke-tested (bounded)"],
@@ -214,7 +216,9 @@ PROPERTIES = {
                         "ENABLE_COMPLEX_ASSERTIONS guards an assertion of a documented precondition"],
     },
     "C10": {
-        "functions": FUT + [T + "_queue_exit", T + "_queue_throw_error", T + "_accept_error", T + "_computed"],
+        "functions": FUT + [T + "_queue_exit", T + "_queue_throw_error", T + "_accept_error", T + "_computed",
+                            B + "BatchBase._compute", B + "BatchBase._computed", B + "BatchBase.flush", B + "BatchBase.cancel",
+                            B + "BatchItemBase._compute"],
         "assumptions": ["qcore.events.EventHook.safe_trigger calls every handler once then re-raises the first error (contract written from its shipped source)",
                         "qcore.errors.reraise raises its argument"],
         "not_proved": ["induction over the operation history is the standard meta-theorem (object invariant + per-operation contract), not machine-checked"],
